@@ -622,6 +622,41 @@ def r15_area_check_covers_every_design(idx, r):
               msg=f"the per-block comparison runs only under {pc}: the reference design is exempt")
 
 
+def r16_grid_size_flags_pairing(idx, r):
+    """(a) a text lattice map is centred with the size _getGridSize reports: EVALUATED (MiniEval) on five index sets - rectangular ones with
+    more columns than rows and the reverse included - it returns (extent in i, extent in j).  (b) explicit `flags:` of an assembly design
+    REPLACE the flags derived from its name: the store into `a.p.flags` under `self.flags is not None` is a plain assignment of the parsed
+    flags (an `|=` keeps the name-derived ones).  (c) argument pairing over the blueprint modules: e.g. NuclideFlag(name, burn, xs, expandTo)
+    gets each value at the parameter of its name."""
+    from ..minieval import MiniEval
+    from ..pairing import pairing_rule
+    f = idx.func("armi.reactor.blueprints.gridBlueprint._getGridSize")
+    prm = f.params()[0]
+    sets_ = [[(0, 0)], [(0, 0), (2, 4)], [(-1, -2), (1, 2), (0, 0)], [(0, 0), (4, 1)], [(3, 3), (5, 9), (4, 4)]]
+    bad = []
+    for keys in sets_:
+        got, _ = MiniEval().run(f.node, {prm: list(keys)})
+        want = (max(k[0] for k in keys) - min(k[0] for k in keys) + 1, max(k[1] for k in keys) - min(k[1] for k in keys) + 1)
+        if tuple(got) != want:
+            bad.append((keys, tuple(got), want))
+    r.require(not bad, "_getGridSize:extent-per-axis", f, msg=f"(indices, result, expected) = {bad[:2]}: a map with different numbers of rows and columns is centred with the wrong offset and every specifier lands on a shifted cell")
+    g = idx.method("armi.reactor.blueprints.assemblyBlueprint.AssemblyBlueprint", "_constructAssembly")
+    sts = [s_ for s_ in iter_stores(g.node) if s_.chain and s_.chain.endswith(".p.flags")]
+    if len(sts) != 1:
+        raise AnchorMissing("_constructAssembly: the store of explicit flags")
+    st = sts[0]
+    conds = [norm(t) for t, p in path_conditions(g.node, st.stmt) if p]
+    val = st.value
+    if isinstance(val, ast.Name):
+        # the definition of that local that reaches the store: the last assignment before it in the same guarded block
+        prev = [x for x in walk_local(g.node) if isinstance(x, ast.Assign) and any(norm(t) == val.id for t in x.targets) and x.lineno < st.stmt.lineno]
+        val = prev[-1].value if prev else None
+    okf = st.kind == "assign" and isinstance(st.stmt, ast.Assign) and any("self.flags" in c for c in conds) and val is not None and "fromString(self.flags)" in norm(val)
+    r.require(okf, "_constructAssembly:explicit-flags-replace-the-derived-ones", g, node=st.stmt,
+              msg=f"`{norm(st.stmt)}` does not assign exactly the parsed `flags:` entry: the assembly keeps flags derived from its name that the blueprint did not list")
+    pairing_rule(idx, r, ["armi.reactor.blueprints"], 100)
+
+
 def run(idx, chk):
     chk.explanation = (
         "C18 is a relation between an input document and an object graph; static analysis claims only: (1) each lattice-map class reads and "
@@ -662,3 +697,5 @@ def run(idx, chk):
                  necessary="a well-formed blueprint builds a model; an inconsistent one is refused with an error")
     chk.run_rule("R18.15", "the assembly/block area consistency check skips only R-Z assemblies", lambda r: r15_area_check_covers_every_design(idx, r), floor=2,
                  necessary="an inconsistent blueprint is refused with an error")
+    chk.run_rule("R18.16", "_getGridSize is the extent per axis (evaluated); explicit assembly flags replace derived ones; arguments stand at their parameter", lambda r: r16_grid_size_flags_pairing(idx, r), floor=3,
+                 necessary="every specifier of the map lands on the cell drawn; objects carry the flags and nuclide options the blueprint states")
